@@ -18,8 +18,8 @@ CLAIM = ("The emitted bash script of every generated grammar is sourced in a rea
          "lenient answers; anything else is a violation.")
 NOTE = ("Translation validation per command line. Proved over the model of the bash template (Model/BashRt.lean, compared with the real "
         "bash on every explored command line): template_offers_extend (every collected candidate extends the typed text, for all tables / "
-        "states / command outputs) and template_unmatched_silent; template_interprets_literals (Proofs/TemplateDfa.lean, over the template model running on the model of the emitted tables, Model/Tables.lean, which is compared with the real script's tables on every C04 run): for an automaton whose literal-reachable states carry only literals and never two literals with one text and different targets, the completion function returns code 1 exactly when the earlier words spell no path of literal transitions from the start, and otherwise COMPREPLY is, as a set, the stripped `text + blank` of the literal transitions out of the state reached that extend the typed prefix at the least || level that has any; template_reads_literal (a typed literal moves to its target at any state); template_needs_word_determinism; template_interprets_automaton (Proofs/TemplateDfaAll.lean) — the same at arbitrary states and for every kind of item: an earlier word is read by the priority literal > within-word automaton whose function matches > command that prints the word > any word, the walk is the run of that step relation (with the last-word heuristic), and with one reading per word at the reachable states the return code and the candidate set per || level (literals, completions inside a word, command output lines) are those of the automaton; template_walk_is_a_run (no determinism needed); template_overwritten_array_harmless (bash's readarray overwriting the accumulated candidates never changes what is offered). The remaining steps to C01_model — the within-word matcher against the within-word automaton beyond C12's theorems, and the automaton's priority runs = Spec.Complete on in-class grammars — "
-        "are open. Trusted: the bash runner stub (bash-completion's _get_comp_words_by_ref is not installed), probe functions, "
+        "states / command outputs) and template_unmatched_silent; template_interprets_literals (Proofs/TemplateDfa.lean, over the template model running on the model of the emitted tables, Model/Tables.lean, which is compared with the real script's tables on every C04 run): for an automaton whose literal-reachable states carry only literals and never two literals with one text and different targets, the completion function returns code 1 exactly when the earlier words spell no path of literal transitions from the start, and otherwise COMPREPLY is, as a set, the stripped `text + blank` of the literal transitions out of the state reached that extend the typed prefix at the least || level that has any; template_reads_literal (a typed literal moves to its target at any state); template_needs_word_determinism; template_interprets_automaton (Proofs/TemplateDfaAll.lean) — the same at arbitrary states and for every kind of item: an earlier word is read by the priority literal > within-word automaton whose function matches > command that prints the word > any word, the walk is the run of that step relation (with the last-word heuristic), and with one reading per word at the reachable states the return code and the candidate set per || level (literals, completions inside a word, command output lines) are those of the automaton; template_walk_is_a_run (no determinism needed); template_overwritten_array_harmless (bash's readarray overwriting the accumulated candidates never changes what is offered). within_word_matcher_follows_automaton (Proofs/SubwordDfa.lean): for within-word automata of non-empty literals that are prefix-free at every state, the function `_<cmd>_subword_N matches` accepts exactly the concatenations of literal paths from the start state, and in complete mode offers matched + literal for the literals expected after the longest readable part, at the least level that has any; within_word_needs_prefix_free. The remaining step to C01_model — the automaton's priority runs = Spec.Complete on in-class grammars (and commands inside words) — "
+        "is open. Trusted: the bash runner stub (bash-completion's _get_comp_words_by_ref is not installed), probe functions, "
         "Spec.Complete itself (the executable statement of the property, DESIGN.md Appendix D).")
 TECHNIQUE = "real bash execution of the emitted script against the executable Lean spec of completion (Spec.Complete) over the grammar's meaning"
 DESIGN_REF = "§3 C01, Appendix D"
